@@ -66,7 +66,12 @@ func NewWorld(rng *rand.Rand, nKeys, nSponsors int, realSigner bool, rules *gene
 	}
 	for i := 0; i < nSponsors; i++ {
 		a := SpyAddr(i)
-		w.Factories = append(w.Factories, &SpyFactory{Auth: SpyAuth{ActorAddr: a, SponsorAddr: a, Compute: uint64(rng.IntN(5)), Start: -1, End: -1, OK: true}})
+		actor := a
+		if rng.IntN(3) == 0 {
+			// sponsored transactions: the fee payer is not the actor (the actor owns no balance)
+			actor = SpyAddr(1000 + i)
+		}
+		w.Factories = append(w.Factories, &SpyFactory{Auth: SpyAuth{ActorAddr: actor, SponsorAddr: a, Compute: uint64(rng.IntN(5)), Start: -1, End: -1, OK: true}})
 		w.Addrs = append(w.Addrs, a)
 		w.Balances = append(w.Balances, 1<<40+uint64(rng.IntN(1000)))
 	}
